@@ -466,7 +466,95 @@ func checkAddrFields(P *core.Program, R *core.Report, mr *msgRoot, uses map[stri
 
 // checkGuards: every state-changing site needs TRUE atoms produced by the frozen guard
 // calls, and each guard call must receive a signer-derived argument.
+// checkGuardBody (C17-guard-body): a frozen guard that is a boolean function of this module
+// (an allow-list membership test) answers true only where it established an equality that
+// involves the value it was asked about: every way to return true carries a must-hold
+// `param == …` fact.  A shortcut that answers true for an empty list, a nil record or a flag
+// opens the guarded message to everyone while every caller still "checks" the guard.
+var guardBodyDone = map[string]bool{}
+
+func checkGuardBody(P *core.Program, R *core.Report, callKey string) {
+	fn := P.Fn(callKey)
+	if fn == nil || len(fn.Blocks) == 0 || fn.Signature.Results().Len() != 1 {
+		return
+	}
+	if b, ok := fn.Signature.Results().At(0).Type().Underlying().(*types.Basic); !ok || b.Kind() != types.Bool {
+		return
+	}
+	ff := P.Facts(fn)
+	asked := map[ssa.Value]bool{}
+	for i, p := range fn.Params {
+		if i == 0 && fn.Signature.Recv() != nil {
+			continue
+		}
+		asked[p] = true
+	}
+	aboutParam := func(atoms []*core.Atom) bool {
+		for _, a := range atoms {
+			if a.Rel != core.EQ || a.B == nil {
+				continue
+			}
+			for _, v := range []ssa.Value{a.A, a.B} {
+				if v == core.ZeroMarker || v == core.NilMarker {
+					continue
+				}
+				for _, o := range ff.Origins(v) {
+					if o.Kind == "param" && asked[o.Val] {
+						return true
+					}
+				}
+			}
+		}
+		return false
+	}
+	isTrue := func(v ssa.Value) bool {
+		c, ok := v.(*ssa.Const)
+		return ok && c.Value != nil && c.Value.String() == "true"
+	}
+	bad := ""
+	n := 0
+	for _, b := range fn.Blocks {
+		ret, ok := b.Instrs[len(b.Instrs)-1].(*ssa.Return)
+		if !ok || len(ret.Results) != 1 {
+			continue
+		}
+		r := ret.Results[0]
+		switch x := r.(type) {
+		case *ssa.Const:
+			if isTrue(x) {
+				n++
+				if !aboutParam(ff.At(ret)) {
+					bad = "`return true` at " + P.Pos(P.InstrPos(ret)) + " is not under an equality involving the value asked about"
+				}
+			}
+		case *ssa.Phi:
+			for i, e := range x.Edges {
+				if !isTrue(e) {
+					continue
+				}
+				n++
+				pred := x.Block().Preds[i]
+				atoms := append(ff.OutFacts(pred), ff.EdgeFacts(pred, x.Block())...)
+				if !aboutParam(atoms) {
+					bad = "a path answering true (into " + P.Pos(P.InstrPos(ret)) + ") is not under an equality involving the value asked about"
+				}
+			}
+		default:
+			// the result of a comparison or of another predicate: nothing to decide here
+		}
+	}
+	if n == 0 {
+		return
+	}
+	R.Add("C17-guard-body", callKey, "answers true only on a match", P.Pos(fn.Pos()), bad == "", "an allow-list guard says yes only where it found the asked value. "+bad)
+}
+
 func checkGuards(P *core.Program, R *core.Report, mr *msgRoot, ff *core.FuncFacts, tc c17Class) {
+	for _, g := range tc.Guards {
+		if g.Path == "" && !guardBodyDone[g.Call+"|"+R.View+"|"+fmt.Sprint(P == nil)] {
+			checkGuardBody(P, R, g.Call)
+		}
+	}
 	if len(tc.Guards) == 0 {
 		R.Add("C17-table", mr.Key, "guards", P.Pos(mr.Fn.Pos()), false, "class GUARDED needs frozen guards")
 		return
